@@ -23,21 +23,21 @@ func init() {
 		ID: "C07", Level: "fault_enumeration", Primary: "fault_placements", EvalCount: "faults_injected",
 		Rule: "faults = handler panic in every operation kind (concurrently dispatched bind/search/modify/add/delete/extended; inline StartTLS; inline unbind; default route), each alone, after earlier requests, and " +
 			"while sibling handlers of the same connection are still running; connection reset mid-frame; truncated frame + FIN; malformed / undecodable frames (incl. inputs that used to panic the decoder); a client that stops " +
-			"reading a large response and resets (failed write); descriptor exhaustion at accept (RLIMIT_NOFILE lowered until accept4 returns EMFILE). Each fault is placed within continuous verified traffic on bystander " +
+			"reading a large response and resets (failed write) or is held; storms of hundreds of recovered panics; TLS handshakes stalled and held on a TLS listener; descriptor exhaustion at accept (RLIMIT_NOFILE lowered until accept4 returns EMFILE). Each fault is placed within continuous verified traffic on bystander " +
 			"connections and followed by a fresh-connection probe. distinct_nontrivial = distinct (fault kind, placement) pairs injected while at least one bystander operation overlapped or followed",
 		Assume: []string{"the server runs in a child process; its death, or Run returning while not stopped, is observed by the supervisor / the harness",
 			"the faulted connection itself may die; only bystanders, new connections and the process are asserted"},
 		Phases: func(tier string, seed int64) []Phase {
-			return []Phase{{Name: "faults", Run: c07Faults, Crash: c07Crash}, {Name: "emfile", Run: c07Emfile}}
+			return []Phase{{Name: "faults", Run: c07Faults, Crash: c07Crash}, {Name: "emfile", Run: c07Emfile}, {Name: "tls-stalled-handshakes", Run: c07TLSStalled}}
 		},
-		MinObserved: []string{"faults_injected", "bystander_ops_verified", "bystander_ops_overlapping_or_after_a_fault", "new_connection_probes", "emfile_accept_failures_provoked"},
+		MinObserved: []string{"faults_injected", "bystander_ops_verified", "bystander_ops_overlapping_or_after_a_fault", "new_connection_probes", "emfile_accept_failures_provoked", "probes_served_while_a_handshake_is_stalled"},
 	})
 }
 
 var c07Kinds = []string{
 	"panic-bind", "panic-search", "panic-modify", "panic-add", "panic-delete", "panic-extended",
 	"panic-starttls", "panic-unbind", "panic-default",
-	"reset-midframe", "truncated-fin", "malformed", "former-decode-panic", "stop-reading-then-reset", "stalled-reader-held",
+	"reset-midframe", "truncated-fin", "malformed", "former-decode-panic", "stop-reading-then-reset", "stalled-reader-held", "panic-storm",
 }
 
 var c07Placements = []string{"alone", "after-requests", "siblings-running", "double", "pipelined-after"}
@@ -255,6 +255,36 @@ func c07Inject(c *Ctx, srv *Srv, cs c07Case, r *Rand) {
 		cl.Send(pick(r, inputs))
 		cl.C.SetReadDeadline(time.Now().Add(300 * time.Millisecond))
 		sber.ReadFrame(cl.br)
+	case cs.Kind == "panic-storm":
+		// hundreds of recovered handler panics, on this connection and on others: whatever a panic leaks must not add up
+		n := 80
+		if cs.Place == "alone" {
+			n = 450
+		}
+		for i := 0; i < n; i++ {
+			if cl.Send(c07FaultFrame(pick(r, []string{"panic-search", "panic-bind", "panic-delete", "panic-extended"}), id+int64(i))) != nil {
+				break
+			}
+			if i%50 == 49 {
+				time.Sleep(2 * time.Millisecond)
+			}
+		}
+		for k := 0; k < 4; k++ {
+			if o, err := dialRaw(srv.Addr, nil); err == nil {
+				for i := 0; i < 10; i++ {
+					o.Send(c07FaultFrame("panic-modify", int64(i+1)))
+				}
+				o.C.SetReadDeadline(time.Now().Add(50 * time.Millisecond))
+				sber.ReadFrame(o.br)
+				o.Close()
+			}
+		}
+		cl.C.SetReadDeadline(time.Now().Add(300 * time.Millisecond))
+		for {
+			if _, err := sber.ReadFrame(cl.br); err != nil {
+				break
+			}
+		}
 	case cs.Kind == "stalled-reader-held":
 		// the client keeps the connection open but never reads: its handlers block in Write for as long as the harness
 		// holds it. While it is held, a fresh connection must be served (bounded progress, B = 10s, no timing verdict
@@ -496,6 +526,84 @@ func c07Crash(s *Super, ph Phase, stderr string, partial *PhaseResult) []Phase {
 	np.Name = fmt.Sprintf("faults@%d", pr.Index+1)
 	np.Arg = strconv.Itoa(pr.Index + 1)
 	return []Phase{np}
+}
+
+// c07TLSStalled: on a TLS listener, clients that connect and never (or only partly) send a ClientHello are HELD by the
+// harness; while they are held a fresh, conforming TLS connection must be accepted and served (B = 10s).
+func c07TLSStalled(c *Ctx) {
+	pki := newPKI()
+	srv, err := startSrv(SrvCfg{TLS: pki.ServerOnly}, func(m *gldap.Mux) {
+		m.Search(func(w *gldap.ResponseWriter, r *gldap.Request) {
+			s, _ := r.GetSearchMessage()
+			if strings.HasPrefix(s.BaseDN, "tag=") {
+				tag, _ := strconv.ParseInt(strings.TrimPrefix(s.BaseDN, "tag="), 10, 64)
+				e := r.NewSearchResponseEntry(s.BaseDN)
+				e.AddAttribute("p", []string{c07Payload(tag)})
+				w.Write(e)
+			}
+			w.Write(r.NewSearchDoneResponse(gldap.WithResponseCode(0)))
+		})
+	})
+	if err != nil {
+		c.Inconclusive("server start: " + err.Error())
+		return
+	}
+	defer srv.StopWithin(patience)
+	probe := func(what string) {
+		done := make(chan error, 1)
+		go func() {
+			cl, err := dialRaw(srv.Addr, pki.ClientPlain)
+			if err != nil {
+				done <- err
+				return
+			}
+			defer cl.Close()
+			cl.Send(c07Search(9, "tag=31"))
+			m, err := cl.ReadMsg(patience)
+			if err == nil {
+				if e, perr := sber.AsEntry(m.Op); perr != nil || string(e.Attrs[0].Vals[0]) != c07Payload(31) {
+					err = fmt.Errorf("wrong answer")
+				}
+			}
+			done <- err
+		}()
+		select {
+		case err := <-done:
+			if err != nil {
+				c.Violate("a connection opened while another client stalls its TLS handshake is not served", what+": "+err.Error(), nil)
+			} else {
+				c.Count("new_connection_probes", 1)
+				c.Count("probes_served_while_a_handshake_is_stalled", 1)
+			}
+		case <-time.After(10 * time.Second):
+			c.Violate("a connection opened while another client stalls its TLS handshake is not served", what+": no answer within 10s while the stalled client was held", nil)
+		}
+	}
+	hellos := [][]byte{nil, {0x16}, {0x16, 0x03, 0x01, 0x00, 0xc8, 0x01, 0x00, 0x00, 0xc4, 0x03, 0x03}, {0x16, 0x03, 0x01}}
+	for rep := 0; rep < c.N(3, 40); rep++ {
+		for hi, h := range hellos {
+			var held []net.Conn
+			for k := 0; k < 1+rep%3; k++ {
+				cn, err := net.Dial("tcp", srv.Addr)
+				if err != nil {
+					c.Violate("server stopped accepting connections", err.Error(), nil)
+					return
+				}
+				if h != nil {
+					cn.Write(h)
+				}
+				held = append(held, cn)
+			}
+			time.Sleep(20 * time.Millisecond)
+			c.Count("faults_injected", 1)
+			c.Count("faults/tls-handshake-stalled-and-held", 1)
+			c.Distinct("fault_placements", fmt.Sprintf("tls-handshake-stalled-and-held/hello%d/n%d", hi, len(held)))
+			probe(fmt.Sprintf("%d clients holding a stalled handshake (hello prefix %x)", len(held), h))
+			for _, cn := range held {
+				cn.Close()
+			}
+		}
+	}
 }
 
 // c07Emfile provokes descriptor exhaustion at accept time.
